@@ -12,7 +12,7 @@ Section Finite.
   Variable K : oracles num.
   Variable minpos : num.
 
-  Local Notation try_as_spdc := (try_as_spdc o U K minpos).
+  Local Notation try_as_spdc := (try_as_spdc_steps o U K minpos).
 
   Definition geometry_defined : Prop :=
     (forall s p cs pp, o_idler_theta K s p cs pp <> None) /\ (forall cs l p, o_waist_pos K cs l p <> None).
@@ -28,7 +28,7 @@ Section Finite.
     (forall signal, signal_step o K c = Ok signal -> neqb o (o_dkz0 K signal (cfg_pump o c) (cfg_cs0 o c)) (n0 o) = false) ->
     try_as_spdc c = Ok (s, nf) -> nf = [].
   Proof.
-    intros Hg Hz. unfold Config.try_as_spdc.
+    intros Hg Hz. unfold Config.try_as_spdc_steps.
     destruct (signal_step o K c) as [signal | |] eqn:Hs; cbn [bind]; try discriminate.
     specialize (Hz signal eq_refl).
     destruct (poling_step o K minpos c signal) as [[pp nfp] | |] eqn:Hp; cbn [bind fst snd]; try discriminate.
@@ -54,7 +54,7 @@ Section Finite.
   (* poling is on in the setup exactly when the configuration asks for it *)
   Theorem poling_off_iff c s nf : try_as_spdc c = Ok (s, nf) -> (s_pp s = PolOff <-> c_pp c = PCOff).
   Proof.
-    unfold Config.try_as_spdc.
+    unfold Config.try_as_spdc_steps.
     destruct (signal_step o K c) as [signal | |]; cbn [bind]; try discriminate.
     destruct (poling_step o K minpos c signal) as [[pp nfp] | |] eqn:Hp; cbn [bind fst snd]; try discriminate.
     destruct (theta_step o K c signal pp) as [cs | |]; cbn [bind]; try discriminate.
@@ -74,7 +74,7 @@ Section Finite.
     exists a signal, c_pp c = PCConfig Auto a /\ signal_step o K c = Ok signal /\
                      neqb o (o_dkz0 K signal (cfg_pump o c) (cfg_cs0 o c)) (n0 o) = true.
   Proof.
-    unfold Config.try_as_spdc.
+    unfold Config.try_as_spdc_steps.
     destruct (signal_step o K c) as [signal | |] eqn:Hs; cbn [bind]; try discriminate.
     destruct (poling_step o K minpos c signal) as [[pp nfp] | |] eqn:Hp; cbn [bind fst snd]; try discriminate.
     destruct (theta_step o K c signal pp) as [cs | |]; cbn [bind]; try discriminate.
